@@ -4,7 +4,7 @@ C18 lemmas, layer 3: what a Delete / Update commit does to the visible rows, giv
 vectors of the LATEST fragments at the addresses `A` (`moveFrags A`) and the new rows carry the ids captured at `A`.
 -/
 namespace LanceModel.C18
-open LanceModel.Table LanceModel.C17 List
+open LanceModel.Table LanceModel.C17Base List
 
 /-- (key, row id) of a row -/
 def kr (r : PRow) : Cell × Nat := (keyOf r.cells, r.rid)
